@@ -507,6 +507,44 @@ def c06_same_bare_name(pair: int, first: int, second: int, swap: int) -> bool:
     return ok
 
 
+def c06_same_bare_overloads(pair: int, role: int, swap: int, firstdef: int) -> bool:
+    """
+    Two OVERLOADS of one name (method / static method / constructor / function) whose first parameter types share their
+    unqualified name (`ns1::Pose`, `ns2::Pose`), the later one (or both) with a defaulted trailing parameter: every arity
+    of every overload keeps its own call-site guard (testing the MATLAB class of its own declared type) and its own C++
+    routine — a shorter form of the later overload is not a duplicate of the earlier overload.
+    pre: 0 <= pair < len(BARE_PAIRS) and 0 <= role <= 3 and 0 <= swap <= 1 and 0 <= firstdef <= 1
+    post: _
+    """
+    pair, role, swap, firstdef = pick(pair, 0, len(BARE_PAIRS)), pick(role, 0, 4), pick(swap, 0, 2), pick(firstdef, 0, 2)
+    with concrete():
+        t1, t2, m1, m2 = BARE_PAIRS[pair]
+        if swap:
+            t1, t2, m1, m2 = t2, t1, m2, m1
+        s1 = "const %s& p%s" % (t1, ", int k = 1" if firstdef else "")
+        s2 = "const %s& p, int k = 1" % t2
+        body = ["Robot(%s); Robot(%s);", "Robot(); void go(%s) const; void go(%s) const;", "Robot(); static double go(%s); static double go(%s);", None][role]
+        if body is None:
+            text = BARE_PRELUDE + "namespace top { double robotfn(%s); double robotfn(%s); }" % (s1, s2)
+        else:
+            text = BARE_PRELUDE + "namespace top { class Robot { %s }; }" % (body % (s1, s2))
+        files, cpp, _w = pipe.matlab(text)
+        problems = []
+        m = files.get("+top/robotfn.m" if role == 3 else "+top/Robot.m", "")
+        guards = re.findall(r"(?:nargin|length\(varargin\)) == (\d)( && isa\(varargin\{1\},'([^']*)'\))?", m)
+        seen = sorted((g[0], g[2]) for g in guards if g[1])
+        want = sorted(([("2", m1)] if firstdef else []) + [("1", m1), ("2", m2), ("1", m2)])
+        if seen != want:
+            problems.append("guards %r, expected %r" % (seen, want))
+        name = "robotfn" if role == 3 else ("go" if role else "Robot")
+        ids = re.findall(r"mod_wrapper\((\d+)", "\n".join(l for l in m.split("\n") if "varargin{:}" in l))
+        if role != 0 and (len(ids) != len(set(ids)) or len(ids) < len(want)):      # (constructor call sites pass their arguments one by one)
+            problems.append("call-site ids of the overload group: %r (expected %d distinct ones)" % (ids, len(want)))
+        ok = not problems or _fail(text=text, problems=problems)
+    reached({"pair": pair, "role": role, "swap": swap, "firstdef": firstdef})
+    return ok
+
+
 def c06_kf_function_enum(which: int) -> bool:
     """
     Witness replay for known finding C06-foreign-scope-enum (free function taking a class-scoped enum).
@@ -536,6 +574,8 @@ def conds(tier):
                 bounds="3 overloads x %d return shapes each x {free function, method, static method}%s" % (NR, "" if not q else " (third shape and role derived)")),
         xh.Cond(M, "c06_all_types", t(420, 2400), path_timeout=60, kind=sb, examples=["kind=0, r=0, a=43, role=1", "kind=0, r=0, a=3, role=0", "kind=1, r=11, a=35, role=2", "kind=1, r=27, a=43, role=3"],
                 bounds="every in-dialect leaf of the C01 type algebra and %s templated roots over unqualified leaves, as first parameter (%s)" % ("every second (root, leaf) pair of the" if not q else "every eighth (root, leaf) pair of the", "4 roles" if not q else "role derived")),
+        xh.Cond(M, "c06_same_bare_overloads", t(300, 900), path_timeout=60, kind=sb, examples=["pair=0, role=1, swap=0, firstdef=0", "pair=1, role=0, swap=1, firstdef=1", "pair=2, role=3, swap=0, firstdef=0"],
+                bounds="%d type pairs with one unqualified name x 4 roles x order x first overload with / without a default: overloads of ONE name" % len(BARE_PAIRS)),
         xh.Cond(M, "c06_same_bare_name", t(300, 900), path_timeout=60, kind=sb, examples=["pair=0, first=1, second=0, swap=0", "pair=1, first=2, second=3, swap=1", "pair=2, first=1, second=1, swap=0"],
                 bounds="%d type pairs sharing a bare name x 4 x 4 roles of the earlier / later callable x both orders" % len(BARE_PAIRS)),
         xh.Cond(M, "c06_kf_template_arg_qualifiers", 60, path_timeout=60, kind=sb, bounds="witness of a listed known finding", needs_confirm=False),
